@@ -537,9 +537,20 @@ def run_type_assignment(
     # using the parent's avg_correlation value.
     for cell in result:
         for parent_level, child_level in zip(level_list[:-1], level_list[1:]):
+            if parent_level is None:
+                continue
             if cell[child_level]['avg_correlation'] is None:
                 cell[child_level]['avg_correlation'] = \
                     cell[parent_level]['avg_correlation']
+
+        # Levels above the first level at which a choice was made
+        # (a taxonomy whose top levels each have a single node)
+        # have no parent to copy from; use the nearest level below.
+        for parent_level, child_level in zip(hierarchy[-2::-1],
+                                             hierarchy[-1:0:-1]):
+            if cell[parent_level]['avg_correlation'] is None:
+                cell[parent_level]['avg_correlation'] = \
+                    cell[child_level]['avg_correlation']
 
     # add aggregate_probability (the product of bootstrapping_probability)
     # across levels in the taxonomy
